@@ -49,3 +49,9 @@ pub open spec fn pure_self_update_def(c: StagedCommit, i: LeafNodeIndex) -> bool
     && (forall|k: int| 0 <= k < c.qps().len() ==> (#[trigger] c.qps()[k]).prop() is Update)
     && (forall|k: int| 0 <= k < c.ups().len() ==> (#[trigger] c.ups()[k]).snd == Sender::Member(i))
 }
+// MIP-02 bookkeeping: the own commit "was a self-update" (clears the post-join obligation to rotate the key) iff it
+// carries an update signal and nothing but Update proposals
+pub open spec fn own_commit_is_self_update(c: StagedCommit) -> bool {
+    (c.path_leaf() is Some || c.ups().len() > 0)
+    && (forall|k: int| 0 <= k < c.qps().len() ==> (#[trigger] c.qps()[k]).prop() is Update)
+}
